@@ -41,6 +41,22 @@ CHECKS = {
         note="Trusted: TLC, lib/gen_imm.py, the in-process driver; trailing comma in the list and methods named like a constructor are not generated.",
         technique="TLA+ model (Constructor.tla) checked by TLC; TLC-enumerated programs replayed into the real analyzers (in-process, binary, go vet)",
         design="5/C02"),
+    "C03": dict(
+        text="TLC checks that the walk with a per-file reported set keyed by (package, type) and the skip of @testonly declarations and "
+             "_test.go files reports exactly what the property demands, for all single uses (3 annotation switches x 2 packages x test/non-test "
+             "file x 5 contexts x 13 use kinds, incl. un-annotated twins, a shadowing local and a same-named type of another package) and all "
+             "sequences of 2-3 uses over 1-2 files; every emitted scenario is replayed into the real analyzers under the default and the "
+             "scan-tests configuration, a sample through the real binary and go vet.",
+        note="Trusted: TLC, lib/gen_tonl.py (programs type-checked before use), the in-process driver. Receiver uses of a @testonly type are not generated.",
+        technique="TLA+ model (TestOnly.tla) checked by TLC; TLC-enumerated programs replayed into the real analyzers (in-process, binary, go vet)",
+        design="5/C03"),
+    "C04": dict(
+        text="TLC checks that the attachment index built from all @packageonly lines, consulted by path and by declared name, with the "
+             "per-file once-per-type rule, reports exactly what the property demands for 9 allow-list shapes x 3 using packages x 11 reference "
+             "kinds and all sequences of 2-3 references; all scenarios replayed into the real analyzers, a sample through the real binary and go vet.",
+        note="Trusted: TLC, lib/gen_tonl.py, the in-process driver.",
+        technique="TLA+ model (PackageOnly.tla) checked by TLC; TLC-enumerated programs replayed into the real analyzers (in-process, binary, go vet)",
+        design="5/C04"),
 }
 
 NOT_YET = "check not built yet in this session; the property is in scope of the TLA+ specification (see DESIGN.md section 5) and will be claimed when its replay binding is in place"
